@@ -20,10 +20,15 @@
 #include <stdlib.h>
 #include <string.h>
 
-typedef struct {
+typedef struct iterator_t {
 	sqfs_dir_iterator_t base;
 
 	sqfs_dir_reader_state_t state;
+
+	/* the directory we are iterating over and the iterator it was
+	   opened from, used to detect directory loops in broken images */
+	struct iterator_t *parent;
+	sqfs_u32 dir_inum;
 
 	sqfs_u32 xattr_idx;
 	sqfs_inode_generic_t *inode;
@@ -103,6 +108,7 @@ static int it_read_link(sqfs_dir_iterator_t *base, char **out)
 static int it_open_subdir(sqfs_dir_iterator_t *base, sqfs_dir_iterator_t **out)
 {
 	iterator_t *it = (iterator_t *)base;
+	int ret;
 
 	*out = NULL;
 
@@ -114,8 +120,17 @@ static int it_open_subdir(sqfs_dir_iterator_t *base, sqfs_dir_iterator_t **out)
 		return SQFS_ERROR_NOT_DIR;
 	}
 
-	return sqfs_dir_iterator_create(it->rd, it->id, it->data, it->xattr,
-					it->inode, out);
+	for (const iterator_t *p = it; p != NULL; p = p->parent) {
+		if (p->dir_inum == it->inode->base.inode_number)
+			return SQFS_ERROR_LINK_LOOP;
+	}
+
+	ret = sqfs_dir_iterator_create(it->rd, it->id, it->data, it->xattr,
+				       it->inode, out);
+	if (ret == 0)
+		((iterator_t *)*out)->parent = sqfs_grab(it);
+
+	return ret;
 }
 
 static void it_ignore_subdir(sqfs_dir_iterator_t *it)
@@ -166,6 +181,7 @@ static void it_destroy(sqfs_object_t *obj)
 	sqfs_drop(it->rd);
 	sqfs_drop(it->data);
 	sqfs_drop(it->xattr);
+	sqfs_drop(it->parent);
 	sqfs_free(it);
 }
 
@@ -193,6 +209,8 @@ int sqfs_dir_iterator_create(sqfs_dir_reader_t *rd,
 		sqfs_free(it);
 		return ret;
 	}
+
+	it->dir_inum = inode->base.inode_number;
 
 	base->next = it_next;
 	base->read_link = it_read_link;
